@@ -1,6 +1,7 @@
 """C13 — aliases are transparent: AliasDict op sequences against the Coq model and class-map spec."""
 import json
 import os
+from fractions import Fraction
 
 from .. import core
 from ..core import gz, gbool, glist
@@ -537,10 +538,21 @@ def trajectory_and_simulation_aliases(ctx):
         m = c09.gen_model(rng, 3000 + k)
         if m["aliases"]:
             specs.append(m)
+    # initial_state.csv columns named after a negated / a plain alias of a state whose start is left at its default
+    sc = str(Fraction(-1, 4 * 3600))
+    for nm, sign, val in (("neg_x1", -1, "5/2"), ("same_x1", 1, "-7/4")):
+        specs.append({"name": "MAlias" + nm.split("_")[0], "dt": 3600, "nsteps": 2,
+                      "states": [{"name": "x0", "start": "1", "fixed": True, "nominal": "10"}, {"name": "x1"}],
+                      "algebraics": [{"name": nm}], "inputs": [{"name": "u0"}], "outputs": ["x0", "x1", nm], "parameters": [],
+                      "equations": [[["v", "der(x0)"], ["+", ["*", ["c", sc], ["v", "x0"]], ["*", ["c", sc], ["v", "u0"]]]],
+                                    [["v", "der(x1)"], ["*", ["c", sc], ["v", "x1"]]],
+                                    [["v", nm], ["neg", ["v", "x1"]] if sign < 0 else ["v", "x1"]]],
+                      "delays": [], "aliases": [[nm, "x1", sign]], "series": {"u0": ["1", "2", "0"]},
+                      "initial_state_csv": {nm: val}, "free_start": {"x1": str(sign * Fraction(val))}})
     with ProcessPoolExecutor(max_workers=8) as ex:
         results = list(ex.map(c09.safe_run, specs))
     for spec, res in zip(specs, results):
-        ctx.case_done(core.fingerprint(["sim-alias", [a[1][0] + str(a[2]) for a in spec["aliases"]]]), True)
+        ctx.case_done(core.fingerprint(["sim-alias", spec["name"][:6], [a[1][0] + str(a[2]) for a in spec["aliases"]]]), True)
         ctx.count("simulation_alias_models")
         if "error" in res or res.get("raised"):
             ctx.count("simulation_alias_unsolved")
@@ -550,6 +562,11 @@ def trajectory_and_simulation_aliases(ctx):
                 if abs(o[a] - sign * o[tgt]) > 1e-7 * (1 + abs(o[tgt])):
                     ctx.violation("simalias/read", {"spec": spec, "alias": a, "observation": o}, what="simulation: alias %s does not read %+d * %s" % (a, sign, tgt))
                     break
+        for nm, val in spec.get("free_start", {}).items():
+            got = res["obs"][0][nm]
+            if abs(got - float(Fraction(val))) > 1e-7:
+                ctx.violation("simalias/initial-state", {"spec": spec, "variable": nm, "expected": val, "got": got},
+                              what="simulation: initial_state.csv %s gives %s = %s at t0, expected %s" % (spec["initial_state_csv"], nm, got, val))
         for nm, want, got in res["setget"]:
             if abs(want - got) > 1e-9:
                 ctx.violation("simalias/write", {"spec": spec, "variable": nm, "expected": want, "got": got},
